@@ -250,36 +250,41 @@ def run(ctx, report: Report) -> None:
     if len(params) < 4:
         raise AnalysisError('SelectorSyntaxError.__init__: expected (self, msg, pattern, index)')
     p_pat, p_idx = params[2], params[3]
-    conds = [n for n in walk_no_nested(ifn) if isinstance(n, ast.If) and any(
-        isinstance(c, ast.Call) and call_name(c) == 'get_pattern_context' for st in n.body for c in ast.walk(st))]
-    if len(conds) != 1:
-        raise AnalysisError('SelectorSyntaxError.__init__: guarded call of get_pattern_context not found')
-    from ..boolpaths import BoolEnv
-    test = conds[0].test
-    # must be true whenever both are not None - whatever their truthiness
-    env = BoolEnv(frozenset({f'{p_pat} is None': False, f'{p_idx} is None': False}.items()))
-    v = env.ev(test)
-    r5.instance({'guard': unparse(test), 'true_for_any_non_None_pattern_and_index': v is True}, key='guard')
-    r5.obligation(v is True)
-    if v is not True:
-        r5.violation('util.SelectorSyntaxError.__init__ guard', umod.where(conds[0]),
-                     f'SelectorSyntaxError computes line/column/context only if `{unparse(test)}`; that is not implied by '
-                     f'"pattern and index were given" (an empty pattern or offset 0 is legitimate), so such errors carry '
-                     f'no position')
-    call = [c for st in conds[0].body for c in ast.walk(st) if isinstance(c, ast.Call) and call_name(c) == 'get_pattern_context'][0]
-    ok = [unparse(a) for a in call.args] == [p_pat, p_idx]
-    assigned = set()
-    for st in conds[0].body:
-        if isinstance(st, ast.Assign):
-            for t in ast.walk(st.targets[0]):
-                if isinstance(t, ast.Attribute):
-                    assigned.add(t.attr)
-    ok = ok and {'context', 'line', 'col'} <= assigned
-    r5.instance({'get_pattern_context(pattern, index) -> self.context, self.line, self.col': ok}, key='assign')
-    r5.obligation(ok)
-    if not ok:
-        r5.violation('util.SelectorSyntaxError.__init__ fields', umod.where(call),
-                     'SelectorSyntaxError no longer stores context, line and col from get_pattern_context(pattern, index)')
+    from ..interp import Obj, Raised, call_function
+    from ..miniev import Unsupported
+    bad = None
+    for pat, idx in ((None, None), ('', 0), ('p', 0), ('', 5), ('abc', 2), ('p', None), (None, 3)):
+        calls = []
+
+        def gpc(p_, i_, _c=calls):
+            _c.append((p_, i_))
+            return ('<context>', 7, 9)
+        me = Obj(_cls='util.SelectorSyntaxError', _name='error')
+        try:
+            call_function(ctx, 'util.SelectorSyntaxError.__init__', ['message', pat, idx], {}, {'get_pattern_context': gpc,
+                                                                                              'util.get_pattern_context': gpc}, me)
+        except Raised as e:
+            calls.append(f'raises {e.exc_name}')
+        except Unsupported as e:
+            raise AnalysisError(f'SelectorSyntaxError.__init__: outside the evaluable fragment: {e}')
+        got = tuple(me.get(f) if me.has(f) else '<unset>' for f in ('context', 'line', 'col'))
+        given = pat is not None and idx is not None
+        exp = ('<context>', 7, 9) if given else (None, None, None)
+        msg_args = me.get('__base_init_args__') if me.has('__base_init_args__') else None
+        msg_ok = bool(msg_args) and isinstance(msg_args[0], str) and 'message' in msg_args[0] and (
+            not given or ('7' in msg_args[0] and '<context>' in msg_args[0]))
+        ok = got == exp and calls == ([(pat, idx)] if given else []) and msg_ok
+        r5.instance({'pattern': pat, 'index': idx, 'context_line_col': got, 'expected': exp, 'message': msg_args[0][:60] if msg_args else None},
+                    key=f'err|{pat!r}|{idx!r}')
+        r5.obligation(ok)
+        if not ok and bad is None:
+            bad = (pat, idx, got, exp, calls, msg_args)
+    if bad is not None:
+        pat, idx, got, exp, calls, msg_args = bad
+        r5.violation('util.SelectorSyntaxError.__init__ guard', umod.where(ifn),
+                     f'SelectorSyntaxError(msg, pattern={pat!r}, index={idx!r}) ends with (context, line, col) = {got}, expected {exp} '
+                     f'(get_pattern_context calls: {calls}; message passed on: {msg_args}): the position is derived exactly when '
+                     f'pattern and index are both given - an empty pattern or offset 0 is legitimate - and the message carries it')
 
     # ---- R6 ----------------------------------------------------------------------------------------------
     r6 = report.rule('C20-R6', 'lines of a pattern are delimited by LF, CR and CRLF only', floor=1)
